@@ -151,3 +151,11 @@ package nsx
 //vc:  ensures[C07] @rawPoliciesPrefixed result == nil ==> (forall k int :: { c.Policies[k] } 0 <= k && k < len(c.Policies) ==> strings.HasPrefix(c.Policies[k].Id, "Netspoc"))
 //vc:  ensures[C07] @rawGroupsPrefixed result == nil ==> (forall k int :: { c.Groups[k] } 0 <= k && k < len(c.Groups) ==> strings.HasPrefix(c.Groups[k].Id, "Netspoc"))
 //vc:  ensures[C07] @rawServicesPrefixed result == nil ==> (forall k int :: { c.Services[k] } 0 <= k && k < len(c.Services) ==> strings.HasPrefix(c.Services[k].Id, "Netspoc-raw"))
+
+// sortRules comparator (closure 5): rules that tie on every other key and on
+// the first address of their groups are ordered by the whole address lists, so
+// that device and target list them in the same order (structural guard of the
+// repaired sort tie, see known-findings.txt).
+//vc:func sortRules$5
+//vc:  assert[C04] at "groupCmp(a.SourceGroups[0], b.SourceGroups[0])" @tieBrokenByAllAddresses true
+//vc:  assert[C04] at "return groupCmp(a.DestinationGroups[0], b.DestinationGroups[0])" @tieBrokenByAllDestinationAddresses true
